@@ -350,6 +350,8 @@ class Model:
                 if name == 'update':
                     return self.mode['chart_update'](ex, obj, args, node)
                 if name == 'size':
+                    if getattr(self, 'chart_size_override', None) is not None:
+                        return self.chart_size_override(obj)
                     return z3.Int(obj.name + '_size')
                 if name in ('cells_starting_at', 'cells_ending_at'):
                     ex.oblige('bounds', z3.And(args[0] >= 0, args[0] <= g.length), node, f'{name}(index) inside length+1 lists')
@@ -370,6 +372,26 @@ class Model:
                 return self.mode['pq'](ex, obj, name, args, node)
             if k == 'config':
                 pass
+            if k == 'cell' and self.mode.get('cell_method') is not None:
+                return self.mode['cell_method'](ex, obj, name, args, node)
+            if k == 'chart' and getattr(ex, '_inline_depth', 0) < 3:
+                # another method of the chart class (e.g. a convenience wrapper around size()): its body is executed in place on the opaque chart
+                try:
+                    fn_ = self.ast.method('chart', name)
+                except CheckerError:
+                    fn_ = None
+                params = [c['name'] for c in (fn_ or {}).get('inner', []) if c.get('kind') == 'ParmVarDecl']
+                if fn_ is not None and len(params) == len(args):
+                    env2 = {'this': Ptr(obj)}
+                    env2.update(dict(zip(params, args)))
+                    ex._inline_depth = getattr(ex, '_inline_depth', 0) + 1
+                    try:
+                        ex.run(body_of(fn_), env2)
+                        return None
+                    except _Return as r:
+                        return r.v
+                    finally:
+                        ex._inline_depth -= 1
         raise CheckerError(f'method {name} on {obj!r} at parsing.h:{line_of(node)} is not modelled')
 
     def result_elem(self, kind, rng, k):
@@ -1151,6 +1173,137 @@ def _lambda_records(ast, m, g, name, cbname, lbody, params):
 
 class LambdaThrow(Exception):
     pass
+
+
+# ------------------------------------------------------------------------------ phase D: what follows the search loop (failure test, ordering, delivery)
+def run_final_region(ast):
+    """the statements of parse_sentence after the search loop, executed path by path from an arbitrary state of the goal chart:
+      final-fail     1 is returned iff the goal cell is empty, 0 otherwise (C01: failure is reported only if no derivation was found; C02: nothing else is returned)
+      final-sorted   the goal cell is sorted (cell::sort, whose comparator is proved to be `higher score first` by the helper contract) before it is walked and not touched afterwards (C10)
+      final-each     the walk visits the items of the goal cell (0, 0), each iteration hands the address of the visited item, a token counter that starts at 0,
+                     the rule cache and the caller's argument to the finalizer exactly once, no iteration leaves the loop early (C10, C02)"""
+    g = Ghost()
+    m = Model(ast, g)
+    fn = ast.function('parse_sentence')
+    body, fors = find_loops(fn)
+    stmts = [c for c in body['inner'] if c.get('kind')]
+    tail = stmts[stmts.index(fors[2]) + 1:]
+    if not tail:
+        raise CheckerError('parse_sentence ends with its search loop: nothing delivers the parses')
+    ex = Exec(ast, m)
+    recs = []
+    work = [[]]
+    pi = 0
+    gsize = z3.Int('goal_size_at_exit')
+    while work:
+        dec = work.pop()
+        ex.reset(dec)
+        ex.assume(gsize >= 0)
+        log = dict(order=[], walks=[], calls=[], other=[])
+        env = base_env(g)
+        env.update(cache=Ptr(Abstract('cache')), finalizer_callback=Abstract('fnptr', name='finalizer_callback'), finalizer_args=Abstract('finalizer_args'),
+                   scaffold=Abstract('fnptr', name='scaffold'), binary_callback=Abstract('cb', name='binary_callback'), unary_callback=Abstract('cb', name='unary_callback'))
+
+        def chart_size(obj):
+            return gsize if obj.name == 'goal' else z3.Int(obj.name + '_size')
+
+        def cell_method(ex_, obj, name, a, node):
+            is_goal = obj.chart.name == 'goal'
+            if name == 'sort' and not a:
+                log['order'].append(('sort', is_goal, z3.simplify(obj.row), z3.simplify(obj.col)))
+                return None
+            if name == 'size' and not a:
+                return gsize if is_goal else ex_.fresh('cell_size', I_)
+            log['other'].append(name)
+            log['order'].append(('touch', is_goal, name))
+            return ex_.fresh('cell_' + name, I_)
+
+        def rng(ex_, st, env_, r):
+            if not (isinstance(r, Abstract) and r.kind == 'cell'):
+                raise CheckerError('range-for over an unmodelled container after the search loop')
+            inner = [c for c in st['inner'] if 'kind' in c]
+            var, lbody = inner[-2]['inner'][0], inner[-1]
+            it = new_item(ex_, 'delivered', m.fields)
+            walk = dict(goal=r.chart.name == 'goal', row=r.row, col=r.col, item=it, calls=[], ended='normal', order_at=len(log['order']))
+            log['order'].append(('walk', walk['goal']))
+            log['walks'].append(walk)
+            env2 = dict(env_)
+            env2[var['name']] = it
+            log['current'] = walk
+            pc0, lits0 = list(ex_.pc), dict(ex_.lits)
+            try:
+                ex_.run(lbody, env2)
+            except _Break:
+                walk['ended'] = 'break'
+            except _Continue:
+                walk['ended'] = 'continue'
+            finally:
+                walk['pc'] = list(ex_.pc)
+                ex_.pc[:] = pc0
+                ex_.lits = lits0
+                log['current'] = None
+
+        def call_value(ex_, f, a, node):
+            if isinstance(f, Abstract) and f.kind == 'fnptr' and f.name == 'finalizer_callback':
+                rec = dict(args=a, walk=log.get('current'))
+                log['calls'].append(rec)
+                if log.get('current') is not None:
+                    log['current']['calls'].append(rec)
+                return None
+            raise CheckerError('call through an unknown function value after the search loop')
+        m.mode = dict(cell_method=cell_method, range=rng)
+        m.mode['for'] = lambda ex_, st, env_: (_ for _ in ()).throw(CheckerError('classic loop after the search loop'))
+        m.call_value_override = call_value
+        m.chart_size_override = chart_size
+        kind, val = 'fallthrough', None
+        try:
+            for st in tail:
+                ex.run(st, env)
+        except _Return as r:
+            kind, val = 'return', r.v
+        except Infeasible:
+            work.extend(ex.pending)
+            continue
+        work.extend(ex.pending)
+        pc = list(ex.pc)
+        add = lambda k, goal, what, props, pc=pc: recs.append(dict(kind=k, line=line_of(tail[0]), goal=goal, pc=pc, what=what, props=props, path=pi, facts=[], site='after-search'))
+        for ob in ex.obligations:
+            recs.append(dict(kind=ob['kind'], line=ob['line'], goal=ob['goal'], pc=ob['pc'], what=ob['what'], props=('C02', 'C10'), path=pi, facts=[], site='after-search'))
+        if kind != 'return' or not z3.is_expr(val):
+            add('final-fail', z3.BoolVal(False), 'parse_sentence returns a status after the search loop', ('C01', 'C02'))
+        else:
+            add('final-fail', z3.And(z3.Implies(gsize == 0, val == 1), z3.Implies(gsize > 0, val == 0)),
+                'status 1 (failed) is returned iff no finished parse reached the goal cell, 0 otherwise', ('C01', 'C02'))
+            delivered = [w for w in log['walks'] if w['goal']]
+            # on a path that reports success the goal cell is sorted, then walked once, and not touched in between or afterwards
+            success = z3.And(gsize > 0)
+            order = log['order']
+            shape_ok = (len(delivered) == 1 and len(log['walks']) == 1 and not log['other'])
+            sorted_before = shape_ok and any(o[0] == 'sort' and o[1] for o in order[:delivered[0]['order_at']]) and \
+                not any(o[0] in ('sort', 'touch') for o in order[delivered[0]['order_at'] + 1:])
+            add('final-sorted', z3.Implies(success, z3.BoolVal(bool(sorted_before))),
+                'on success the goal cell is sorted (best first) before its items are handed out, and left alone afterwards', ('C10',))
+            if shape_ok:
+                w = delivered[0]
+                add('final-each', z3.Implies(success, z3.And(w['row'] == 0, w['col'] == 0, z3.BoolVal(w['ended'] == 'normal'))),
+                    'the items handed out are those of the goal cell (0, 0), all of them (no break)', ('C10', 'C02'))
+                ok = len(w['calls']) == 1 and len(log['calls']) == 1
+                conj = [z3.BoolVal(bool(ok))]
+                if ok:
+                    a = w['calls'][0]['args']
+                    first = a[0].target if isinstance(a[0], Ptr) else (a[0].v if isinstance(a[0], AddrOf) else a[0])
+                    tok = a[1].v if len(a) > 1 and isinstance(a[1], AddrOf) else None
+                    conj.append(z3.BoolVal(len(a) == 4 and first is w['item']))
+                    conj.append(tok == 0 if z3.is_expr(tok) else z3.BoolVal(False))
+                    conj.append(z3.BoolVal(len(a) == 4 and isinstance(a[2], Ptr) and isinstance(a[2].target, Abstract) and a[2].target.kind == 'cache'
+                                           and isinstance(a[3], Abstract) and a[3].kind == 'finalizer_args'))
+                add('final-each', z3.And(*conj), 'each visited item is handed to the finalizer exactly once: (&item, &token counter = 0, cache, finalizer_args)', ('C10', 'C02'), pc=w['pc'])
+            else:
+                add('final-each', z3.Implies(success, z3.BoolVal(False)), 'on success exactly the goal cell is walked, once', ('C10', 'C02'))
+        pi += 1
+    if not recs:
+        raise CheckerError('no obligations generated for the region after the search loop')
+    return recs
 
 
 # ------------------------------------------------------------------------------ frame of parse_sentence w.r.t. *config (whole function, syntactic)
